@@ -85,9 +85,12 @@ def target(c):
                 except AttributeError:
                     pass
                 rb = guard("regroup_bytes", bytes, rg)
-                rr = c.rf("LeafPick").FromString(rb)
-                if rb != b"\x12\x01x" or rr.WhichOneof("g") != "s":
-                    bad("regrouped_subclass_encoding", f"{how}: bytes {rb.hex()}, the reference sees {rr.WhichOneof('g')!r}")
+                try:
+                    seen_by_ref = c.rf("LeafPick").FromString(rb).WhichOneof("g")
+                except Exception as e:  # noqa: BLE001 - not a message at all
+                    seen_by_ref = f"<rejected: {e}>"
+                if rb != b"\x12\x01x" or seen_by_ref != "s":
+                    bad("regrouped_subclass_encoding", f"{how}: bytes {rb.hex()}, the reference sees {seen_by_ref!r}")
                 if guard("regroup_to_dict", rg.to_dict) != {"s": "x"}:
                     bad("regrouped_subclass_to_dict", f"{how}: {rg.to_dict()!r}")
             objs = [
@@ -105,8 +108,10 @@ def target(c):
                         bad("subclass_len", f"{cls.__name__}: len {len(m)} bytes {len(bytes(m))}")
             for cls, m, refname, want in objs:
                 b = guard("bytes", bytes, m)
-                r = c.rf(refname).FromString(b)
-                got = json_format.MessageToDict(r, preserving_proto_field_name=True)
+                try:
+                    got = json_format.MessageToDict(c.rf(refname).FromString(b), preserving_proto_field_name=True)
+                except Exception as e:  # noqa: BLE001 - not a message at all
+                    got = f"<rejected: {e}>"
                 if got != want:
                     bad("subclass_encoding", f"{cls.__name__}: reference ({refname}) reads {got!r}, want {want!r}; bytes={b.hex()}")
                 if guard("len", len, m) != len(b):
